@@ -85,6 +85,23 @@ def defaulting_target(e: ast.AST, tainted: Set[str]) -> bool:
     return False
 
 
+def statement_default(func, assign: ast.Assign, name: str) -> bool:
+    """`if atol is None: atol = Settings.get_atol()` - the statement spelling of the defaulting expression: the
+    assignment is the whole body of an `if` without else whose test is `name is None` / `not name`."""
+    if not is_get_atol(assign.value):
+        return False
+    for n in own_nodes(func.node):
+        if isinstance(n, ast.If) and not n.orelse and len(n.body) == 1 and n.body[0] is assign:
+            t = n.test
+            if isinstance(t, ast.Compare) and len(t.ops) == 1 and isinstance(t.ops[0], (ast.Is, ast.Eq)) \
+                    and isinstance(t.left, ast.Name) and t.left.id == name and const(t.comparators[0]) is None \
+                    and isinstance(t.comparators[0], ast.Constant):
+                return True
+            if isinstance(t, ast.UnaryOp) and isinstance(t.op, ast.Not) and isinstance(t.operand, ast.Name) and t.operand.id == name:
+                return True
+    return False
+
+
 class TolFlow:
     def __init__(self, res: Resolver):
         self.res = res
@@ -124,6 +141,8 @@ class TolFlow:
             if isinstance(n, ast.Assign):
                 for t in n.targets:
                     if isinstance(t, ast.Name) and t.id in tainted and not self.tainted_expr(n.value, tainted):
+                        if statement_default(func, n, t.id):
+                            continue
                         self.uses.append(TaintUse(func, n, (), "tolerance variable '%s' re-bound to %s" % (t.id, unparse(n.value))))
             elif isinstance(n, ast.AugAssign) and isinstance(n.target, ast.Name) and n.target.id in tainted:
                 self.uses.append(TaintUse(func, n, (), "tolerance variable '%s' modified in place" % n.target.id))
